@@ -12,11 +12,12 @@ func init() {
 			{Name: "H_C20_nearest", Tier: "quick", What: "FindNearestCentroidIndex (the assignment kernel): 1..3 centroids, d<=2, 3 metrics, all float32 with non-NaN distances: index in range, no strictly nearer centroid (which of several equidistant centroids is returned is not constrained)", Covers: []string{"ran"}},
 			{Name: "H_C20_kmeans", Tier: "quick", What: "KMeans: n<=2 vectors, d=1, 3 metrics, k any int, maxIter any int (effective iterations <=2): min(k,n) centroids, nil for k<=0 / n=0, assignments in range, nearest when converged, input untouched, second call bit-identical", Covers: []string{"ran", "nil", "converged"}},
 			{Name: "H_C20_kmeans_finite", Tier: "quick", What: "KMeans, k=2, 2 iterations, 2 points or 3 with a duplicate (an empty cluster arises), symbolic coordinates in [-1e6,1e6]: every centroid coordinate is finite (T2)", Covers: []string{"ran"}},
-			{Name: "H_C20_train_twice", Tier: "quick", What: "IVF / PQ / IVFPQ trained twice on the same 12 vectors: bit-identical centroids and codebooks, identical result lists", Covers: []string{"ran"}},
+			{Name: "H_C20_kmeans_box", Tier: "quick", What: "KMeans, k in {2,3}, 2 iterations, 2..4 points in d=1 built from two symbolic coordinates on the dyadic grid k/4, |k|<=32 (duplicates, all-equal data, k above the number of distinct points: clusters that stay empty): every centroid coordinate lies inside the bounding box of the training vectors, exactly (T2, grid domain)", Covers: []string{"ran"}},
+			{Name: "H_C20_train_twice", Tier: "quick", What: "IVF / PQ / IVFPQ (nlist 1 and 2) trained twice on the same 12 / 20 vectors, the second time under the reversed map iteration order: bit-identical centroids and codebooks, identical result lists", Covers: []string{"ran"}},
 			{Name: "H_C20_kmeans3", Tier: "thorough", What: "KMeans n=3, k=2, l2sq, <=2 iterations", Covers: []string{"ran"}},
 		},
 		Bounds:      []string{"k-means: n<=2 (3 thorough) training vectors, d=1, effective iterations <=2 (DefaultMaxIter is set by the harness for maxIter<=0)", "float16: all 2^32 float32 inputs (NaN inputs only for no-panic)", "int8: 7 concrete absMax values x every float32 v in range"},
-		Outside:     []string{"k-means on 4..500 vectors (n=4 with k=2 did not finish: every comparison of two cluster means forks at T1) — empty-cluster behaviour that needs >=4 points is not reached", "bounding-box containment of centroids (tolerance law; grid-domain attempt not registered)", "symbolic absMax (cvc5 > 120 s)", "int8 bound without float slack (refuted: met with equality in the reals)"},
+		Outside:     []string{"k-means on 4..500 vectors (n=4 with k=2 did not finish: every comparison of two cluster means forks at T1) — empty-cluster behaviour that needs >=4 points is not reached", "bounding-box containment of centroids beyond the dyadic-grid domain of H_C20_kmeans_box (a tolerance law over all float32)", "symbolic absMax (cvc5 > 120 s)", "int8 bound without float slack (refuted: met with equality in the reals)"},
 		Assumptions: []string{"T1/T2 ladder as in DESIGN.md §3.3; float->int8 conversion encoded with fp.to_sbv RTZ, in range because |v|<=absMax", "math.Round = roundToIntegral RNA"},
 		QuickSecs:   900,
 		ThoroughSec: 7200,
